@@ -191,7 +191,7 @@ class C17a(Monitor):
         self.user_swim = False
 
     def before_action(self, r, a):
-        if a and a[0] in ("mqtt", "queue", "lagcmd", "postlag", "race") and "/settings/swim/mode" in [x for x in a if isinstance(x, str)]:
+        if a and a[0] in ("mqtt", "queue", "lagcmd", "postlag", "race", "racelag") and "/settings/swim/mode" in [x for x in a if isinstance(x, str)]:
             self.user_swim = True
         if a and a[0] == "burst" and any(t == "/settings/swim/mode" for t, _ in a[1]):
             self.user_swim = True
@@ -289,7 +289,7 @@ class Timed(Monitor):
         set_bw, set_rinse = 120.0, 60.0
         open_requested = False
         # an actor that lags longer than the latency bound eats into the "(less 2 s)" allowance
-        slack = 2.0 + max([float(a[2]) for a in getattr(r, "actions", []) if a and a[0] in ("lag", "lagcmd")] + [0.0])
+        slack = 2.0 + max([float(a[2]) for a in getattr(r, "actions", []) if a and a[0] in ("lag", "lagcmd", "racelag")] + [0.0])
         for (t, kind, data) in r.world.log:
             if kind == "mqtt":
                 try:
@@ -478,7 +478,7 @@ class WinterCycle(Monitor):
         s = r.sys
         var = set(s.pins["variable"][1:])
         swim = set(s.pins["swim"])
-        slack = 15.0 + sum([float(a[2]) for a in getattr(r, "actions", []) if a and a[0] in ("lag", "lagcmd", "postlag")] + [0.0])
+        slack = 15.0 + sum([float(a[2]) for a in getattr(r, "actions", []) if a and a[0] in ("lag", "lagcmd", "postlag", "racelag")] + [0.0])
         pumps = {
             "F": {"pins": var, "key": "temperature_air", "period": float(wn["period"]), "thr": float(wn["only_below"]), "name": "circulation pump"},
             "S": {"pins": swim, "key": "temperature_ncc", "period": float(wn["swim_period"]), "thr": float(wn["swim_only_below"]), "name": "counter-current pump"},
